@@ -165,6 +165,34 @@ mod harnesses {
         assert!(m.len() == 9);
     }
 
+    /// C01/C12/C14: a resize started by `reserve` moves nothing: every element is in the old table and the MAIN table is
+    /// empty. Lookups, raw-entry lookups, get_mut, is_empty, the fold-based adaptors must still see the elements.
+    #[kani::proof]
+    #[kani::unwind(8)]
+    fn main_empty_after_reserve() {
+        let mut m = Map::with_hasher(Seeded(0));
+        m.insert(0, 100);
+        m.insert(1, 101);
+        m.insert(2, 102);
+        m.reserve(8);
+        let st = m.verif_state();
+        kani::cover!(st.old.is_some(), "resize in flight with an empty main table");
+        assert!(st.old.is_some());
+        let k: u8 = if kani::any() { 0 } else { 2 };
+        assert!(!m.is_empty() && m.len() == 3);
+        assert!(m.contains_key(&k));
+        assert!(m.raw_entry().from_key(&k).is_some());
+        assert!(m.iter().count() == 3);
+        match m.get_mut(&k) {
+            Some(v) => *v = 7,
+            None => panic!("present key not found by get_mut while the main table is empty"),
+        }
+        match m.raw_entry_mut().from_key(&k) {
+            griddle::hash_map::RawEntryMut::Occupied(o) => assert!(*o.get() == 7),
+            griddle::hash_map::RawEntryMut::Vacant(_) => panic!("raw entry reports Vacant for a present key"),
+        }
+    }
+
     /// C08: iterating a split map yields each element once, with exact length at every step, and is fused
     #[kani::proof]
     #[kani::unwind(12)]
